@@ -75,6 +75,22 @@ Theorem C11_accept_iff_valid_grpc :
 Proof. intros St sput. exact (update_accept_iff_valid sput). Qed.
 Print Assumptions C11_accept_iff_valid_grpc.
 
+(* on the reference store an acknowledged gRPC upload is moreover CONSISTENT: every inlined byte
+   string (output-file contents, stdout, stderr) that has a digest beside it has exactly that
+   length and SHA-256 — the store refuses non-empty data under any other digest, the empty
+   blob's included *)
+Theorem C11_accept_implies_consistent_grpc :
+  forall w marshal_ok s key ar0 s' ops m,
+    update_action_result ms_put w marshal_ok s (Some (mkUpd (Some key) (Some ar0))) = (s', ops, Ok m) ->
+    (forall f g, In (Some f) (ar_files ar0) -> blen (of_contents f) >? 0 = true -> of_digest f = Some g ->
+       blen (of_contents f) = size_bytes g /\ bsha (of_contents f) = hash g) /\
+    (forall g, blen (ar_stdout_raw ar0) >? 0 = true -> ar_stdout_digest ar0 = Some g ->
+       blen (ar_stdout_raw ar0) = size_bytes g /\ bsha (ar_stdout_raw ar0) = hash g) /\
+    (forall g, blen (ar_stderr_raw ar0) >? 0 = true -> ar_stderr_digest ar0 = Some g ->
+       blen (ar_stderr_raw ar0) = size_bytes g /\ bsha (ar_stderr_raw ar0) = hash g).
+Proof. exact update_accept_consistent. Qed.
+Print Assumptions C11_accept_implies_consistent_grpc.
+
 (* HTTP PUT (protobuf or JSON, plain or zstd): the same, with the framing conditions *)
 Theorem C11_accept_only_if_valid_http :
   forall (St : Type) (sput : St -> store_op -> St * option errc) max_cas s r s' ops,
@@ -328,19 +344,28 @@ Proof. vm_compute. split; reflexivity. Qed.
 (* Observations recorded as examples (see the report):
    1. the validator accepts a digest of size 0 whose hash is not the empty blob's (no blob can
       ever match it; the key check validateHash refuses the same shape);
-   2. inline bytes whose declared digest is the EMPTY blob's are accepted by UpdateActionResult
-      (disk.Put short-cuts the empty digest without looking at the bytes) although every other
-      mismatch is refused; a later hit that does not ask for inlining drops the bytes: they are
-      neither in the message nor in the CAS. *)
+   2. inline bytes whose declared digest is the EMPTY blob's: disk.Put now reads one byte and
+      refuses data declared to be the empty blob, so the gRPC upload is rejected (bad request) and
+      stores nothing — like every other contents/digest mismatch.  HTTP PUT never looks at inlined
+      blobs, so it still accepts such a message (as it accepts any inconsistent one); for THIS
+      digest a later gRPC read that does not inline still drops the bytes, because maybeInline's
+      Contains check short-cuts the empty digest. *)
 Example C11_zero_size_digest_accepted :
   validate (Some (mkAR [Some (mkOF "f" (Some (mkDigest ex_hA 0)) false no_bytes)] [] [] [] [] 0 no_bytes None no_bytes None None)) = Ok tt
   /\ validate_key ex_hA 0 = false.
 Proof. vm_compute. split; reflexivity. Qed.
 
-Example C11_empty_digest_inline_anomaly :
+Example C11_empty_digest_inline_rejected_grpc :
   let odd := mkAR [] [] [] [] [] 0 ex_bB (Some (mkDigest emptySha 0)) no_bytes None None in
   let '(s1, ops, r) := update_action_result ms_put "w" true empty_store (Some (mkUpd (Some (mkDigest ex_key 42)) (Some odd))) in
+  validate (Some odd) = Ok tt /\ r = Err EBadRequest /\ s1 = empty_store /\ map is_ac_put ops = [false].
+Proof. vm_compute. repeat split; reflexivity. Qed.
+
+Example C11_empty_digest_inline_http_residual :
+  let odd := mkAR [] [] [] [] [] 0 ex_bB (Some (mkDigest emptySha 0)) no_bytes None None in
+  let '(s1, ops, r) := http_put_ac ms_put true 1000 empty_store
+                         (mkHP ex_key 10 None "" false "10.0.0.1:9" (mkBytes 10 ex_hA) None (Some odd)) in
   let '(s2, g) := get_action_result true [] s1 (Some (mkGet (Some (mkDigest ex_key 42)) false false [])) in
-  is_ok r = true /\ st_cas s2 = [] /\
+  r = Ok tt /\ st_cas s2 = [] /\
   match g with Ok m => ar_stdout_raw m = no_bytes /\ ar_stdout_digest m = Some (mkDigest emptySha 0) | _ => False end.
 Proof. vm_compute. repeat split; reflexivity. Qed.
